@@ -18,6 +18,7 @@ import SmoothProofs.C17Iso
 import SmoothProofs.C17Sek1
 import SmoothProofs.C17Sek2
 import SmoothProofs.C17Sek2Maps
+import SmoothProofs.C17Sek2Series
 
 open Lin Scalar
 
@@ -83,14 +84,53 @@ theorem sek3_2_embeds_galilei :
     C17P.sek2_composition, C17P.sek2_inverse, C17P.sek2_matrix, C17P.sek2_hat, C17P.sek2_log,
     C17P.sek2_Ad, C17P.sek2_ad, C17P.sek2_dr_exp, C17P.sek2_dr_expinv⟩
 
-/-- full statement for `exp`: ι commutes with exp on every tangent with `s = 0`.
-    NOT proved in this generality: in the series branch of the rotation part (`‖ω‖² ≤ eps2`) the two
-    sides are different polynomial truncations (SE_K_3: `Ad(q)·dr_exp(ω)·v` with `q` the truncated
-    quaternion; Galilei: `S1(ω)·b`), equal only up to the truncation error bounded in C02.
-    Proved: `sek3_2_exp_partial` (closed-form branch: exact; every branch: rotation and time parts).
+/-- the exact statement for `exp`: ι commutes with exp on every tangent with `s = 0`.
+    As an EXACT identity over ℝ this is FALSE (`sek3_2_exp_statement_false`): in the series branch
+    of the rotation part (`‖ω‖² ≤ eps2`) the two sides are different polynomial truncations
+    (SE_K_3: `Ad(q)·dr_exp(ω)·v` with `q` the truncated quaternion; Galilei: `S1(ω)·b`).
+    What holds: exact equality in the closed-form branch (`sek3_2_exp_partial`), and for ALL
+    tangents agreement of every coefficient up to `(3/50)·‖ω‖⁵·‖v‖∞ ≤ 6·10⁻²²·‖v‖∞`
+    (`sek3_2_exp_series`, `sek3_2_exp_all`).
     The agreement on the implementation is audited every run (`pair_ulp|SEK2:GAL|exp`). -/
 def sek3_2_exp_statement : Prop :=
   ∀ a : Vec ℝ (3 + 3 * 2), Conv.sek2_to_gal (SEK3.exp 2 a) = Galilei.exp (Conv.sek2T_to_gal a)
+
+/-- **the exact identity fails**: witness `ω = (10⁻⁵, 0, 0)`, `v₁ = (0, 1, 0)`, `v₂ = 0` (series
+    branch, `‖ω‖² = 10⁻¹⁰ < eps2`): the `v_z` coefficients of the two sides differ (by `E₁·10⁻⁵`,
+    `E₁ ≈ −‖ω‖⁴/320`, i.e. about `3·10⁻²⁸`) -/
+theorem sek3_2_exp_statement_false : ¬ sek3_2_exp_statement :=
+  fun h => C17P.sek2_exp_not_exact (h C17P.wit)
+
+/-- **series side, quantitative**: for `‖ω‖² ≤ eps2` (the point `ω = 0` and the switch point
+    included — there `SO3.exp` is already closed-form while `cos_2`, `sin_3` are still series) every
+    one of the 11 coefficients of `ι(exp a)` and `exp(ι_* a)` differs by at most
+    `(3/50)·‖ω‖⁵·V`, where `V` bounds the linear components `|v₁|, |v₂|` — from the truncation
+    bounds of C02 (`so3_expA_real`, `so3_expB_real`, `trig_cos_2_series`, `trig_sin_3_series`) and
+    the exact coefficient identities of C04 (`coef_p_ad`, `coef_q_ad`). -/
+theorem sek3_2_exp_series (a : Vec ℝ (3 + 3 * 2)) (h : sqNorm (SEK3.tw 2 a) ≤ Scalar.eps2) (V : ℝ)
+    (hV : ∀ (k : Fin 2) (c : Fin 3), |(SEK3.tv 2 a k) c| ≤ V) (i : Fin 11) :
+    |(Conv.sek2_to_gal (SEK3.exp 2 a)) i - (Galilei.exp (Conv.sek2T_to_gal a)) i|
+      ≤ 3 * (sqNorm (SEK3.tw 2 a) ^ 2 * Real.sqrt (sqNorm (SEK3.tw 2 a)) / 50 * V) :=
+  C17P.sek2_exp_series a h V hV i
+
+/-- **ALL tangents**: `ι ∘ exp = exp ∘ ι_*` holds coefficientwise up to `6·10⁻²²·V` for every
+    tangent of SE_2(3) (exactly in the closed-form branch). -/
+theorem sek3_2_exp_all (a : Vec ℝ (3 + 3 * 2)) (V : ℝ)
+    (hV : ∀ (k : Fin 2) (c : Fin 3), |(SEK3.tv 2 a k) c| ≤ V) (i : Fin 11) :
+    |(Conv.sek2_to_gal (SEK3.exp 2 a)) i - (Galilei.exp (Conv.sek2T_to_gal a)) i| ≤ 6 / 10 ^ 22 * V := by
+  have hV0 : 0 ≤ V := le_trans (abs_nonneg _) (hV 0 0)
+  by_cases hb : Scalar.eps2 < sqNorm (SEK3.tw 2 a)
+  · rw [C17P.sek2_exp a hb, sub_self, abs_zero]; positivity
+  · exact le_trans (C17P.sek2_exp_series a (not_lt.1 hb) V hV i)
+      (C17P.series_bound_small (C17P.sqNorm3_nonneg _) (not_lt.1 hb) hV0)
+
+/-- non-vacuity of `sek3_2_exp_series`: the witness of `sek3_2_exp_statement_false` lies on the
+    series side with `V = 1` -/
+example : sqNorm (SEK3.tw 2 C17P.wit) ≤ Scalar.eps2 ∧ ∀ (k : Fin 2) (c : Fin 3), |(SEK3.tv 2 C17P.wit k) c| ≤ 1 := by
+  refine ⟨?_, ?_⟩
+  · rw [C17P.wit_n, C02.scalar_eps2]; norm_num
+  · intro k c
+    fin_cases k <;> fin_cases c <;> simp [SEK3.tv, C17P.wit, Vec.of]
 
 theorem sek3_2_exp_partial (a : Vec ℝ (3 + 3 * 2)) :
     (Scalar.eps2 < sqNorm (SEK3.tw 2 a) →
